@@ -83,6 +83,7 @@ type PTrunEntry struct {
 
 // PTrun is a parsed trun plus its resolved samples.
 type PTrun struct {
+	Box              BoxInfo
 	Version          uint8
 	Flags            uint32
 	SampleCount      uint32
@@ -102,6 +103,8 @@ func (t *PTrun) HasCto() bool              { return t.Flags&0x000800 != 0 }
 
 // PTraf is a parsed traf.
 type PTraf struct {
+	Box         BoxInfo
+	TfhdBox     BoxInfo
 	Tfhd        PTfhd
 	HasTfdt     bool
 	TfdtVersion uint8
@@ -175,10 +178,10 @@ type PTfraEntry struct {
 
 // PTfra is a parsed tfra.
 type PTfra struct {
-	Version                               uint8
-	TrackID                               uint32
-	LenTrafNum, LenTrunNum, LenSampleNum  uint8 // the stored 2-bit values (bytes-1)
-	Entries                               []PTfraEntry
+	Version                              uint8
+	TrackID                              uint32
+	LenTrafNum, LenTrunNum, LenSampleNum uint8 // the stored 2-bit values (bytes-1)
+	Entries                              []PTfraEntry
 }
 
 // PMfra is a parsed mfra.
@@ -191,15 +194,15 @@ type PMfra struct {
 
 // Parsed is the result of Read.
 type Parsed struct {
-	Boxes         []BoxInfo // every top-level box in order
-	HasMoov       bool
+	Boxes          []BoxInfo // every top-level box in order
+	HasMoov        bool
 	MovieTimescale uint32
-	Tracks        []PTrack
-	Trexs         []PTrex
-	Moofs         []PMoof
-	Sidxs         []PSidx
-	Mfra          *PMfra
-	Styps         []BoxInfo
+	Tracks         []PTrack
+	Trexs          []PTrex
+	Moofs          []PMoof
+	Sidxs          []PSidx
+	Mfra           *PMfra
+	Styps          []BoxInfo
 }
 
 // Track returns the trak with the given ID.
@@ -649,7 +652,7 @@ func parseMoof(file []byte, mb *PBox, p *Parsed, trexOf func(uint32) *PTrex, hav
 
 func parseTraf(file []byte, tb *PBox, moofStart uint64, firstTraf bool, prevTrafEnd uint64,
 	trexOf func(uint32) *PTrex, times map[uint32]*trackState) (*PTraf, error) {
-	t := &PTraf{}
+	t := &PTraf{Box: tb.Info()}
 	kids, err := tb.children(file, 0)
 	if err != nil {
 		return nil, err
@@ -667,6 +670,7 @@ func parseTraf(file []byte, tb *PBox, moofStart uint64, firstTraf bool, prevTraf
 			}
 			r := &rd{b: k.Payload}
 			h := &t.Tfhd
+			t.TfhdBox = k.Info()
 			h.Version, h.Flags = fullHeader(r)
 			h.TrackID = r.u32()
 			if h.HasBaseDataOffset() {
@@ -751,6 +755,7 @@ func parseTraf(file []byte, tb *PBox, moofStart uint64, firstTraf bool, prevTraf
 	for ri, k := range trunBoxes {
 		r := &rd{b: k.Payload}
 		var tr PTrun
+		tr.Box = k.Info()
 		tr.Version, tr.Flags = fullHeader(r)
 		if tr.Version > 1 {
 			return nil, fmt.Errorf("trun: version %d", tr.Version)
